@@ -258,6 +258,7 @@ type SV struct {
 }
 
 type SpecEnv struct {
+	noRename bool
 	vc    *VC
 	fr    *Frame
 	st    *State
@@ -893,6 +894,23 @@ func (env *SpecEnv) ident(name string) SV {
 	// a package name?
 	if p := vc.eng.findPkgByName(env.pkg, name); p != nil {
 		return SV{V: pkgRef{p}}
+	}
+	if fr != nil && fr.fn != nil && !env.noRename {
+		if alt := vc.eng.renamedLocal(fr.fn, name); alt != "" {
+			env.noRename = true
+			defer func() { env.noRename = false }()
+			note := "identifier " + name + " in a clause of " + fr.fn.Name() + " resolved to the renamed local " + alt
+			seen := false
+			for _, n := range vc.notes {
+				if n == note {
+					seen = true
+				}
+			}
+			if !seen {
+				vc.notes = append(vc.notes, note)
+			}
+			return env.ident(alt)
+		}
 	}
 	sfail("unknown identifier %q in spec", name)
 	return SV{}
